@@ -26,7 +26,8 @@ LEVEL_TEXT = ("Proof (modelled accesses): the index-chasing merge walk over two 
               "Matsubara storage never reads/writes out of range (C15); the operator comparison reads in range (C05); the index "
               "table has no null slot (C18); extracted flags: data() for the reduction buffer, inclusive state bounds tests. "
               "PARTIAL: all other memory accesses are only observed: every harness of every other property runs under "
-              "ASan/UBSan/_GLIBCXX_ASSERTIONS and any report is a C17 violation with that workflow as replay.")
+              "ASan/UBSan/_GLIBCXX_ASSERTIONS, a few complete workflows (incl. temperatures at which Boltzmann factors underflow) run "
+              "on an uninstrumented build under valgrind memcheck, and any report is a C17 violation with that workflow as replay.")
 LEVEL_NOTE = "Trusted: sanitizers as observers; Eigen/Boost/libstdc++ internals not modelled. Partial by nature (named gap)."
 TECHNIQUE = "Lean 4 proof for the modelled index-chasing/storage accesses + sanitizer-instrumented execution of all workflows"
 DESIGN_REF = "DESIGN.md section 6, C17"
